@@ -237,6 +237,7 @@ def classify_expr(ctx, LF, f, e, depth=0, seen=None, narrow=None):
                     best = worst(best, classify_expr(ctx, LF, owner, a, depth + 1, seen, narrow))
             elif isinstance(n, ast.AugAssign) and isinstance(n.target, ast.Name) and n.target.id == e.id:
                 best = worst(best, classify_expr(ctx, LF, owner, n.value, depth + 1, seen, narrow))
+        descs = set()
         for st, v in ds:
             if isinstance(st, ast.AugAssign):
                 continue
@@ -246,7 +247,13 @@ def classify_expr(ctx, LF, f, e, depth=0, seen=None, narrow=None):
                 c = ("UNKNOWN", e.id)
             else:
                 c = classify_expr(ctx, LF, owner, v, depth + 1, seen, narrow)
+            if c and c[0] in ("LINK",):
+                descs.add(c)
             best = worst(best, c)
+        if len(descs) > 1:
+            # the variable is re-bound from different name-resolved sources (a link field here, a
+            # workspace look-up there): no guard on a single field covers the edge
+            return "LINK", "one of " + " | ".join(sorted(d_[1] for d_ in descs))
         if best is None:
             b = ctx.r.benv(f).get(e.id)
             return ("TEXT", e.id) if b else ("UNKNOWN", e.id)
